@@ -80,8 +80,11 @@ pub fn make_binst(r: &mut StdRng, variant: usize) -> BInst {
         keys.insert(k.to_string(), k.to_string());
     }
     // custom keys: plain, unicode, with escapes, long
-    let customs: [(&str, &str); 5] = [
+    let customs: [(&str, &str); 8] = [
         ("custom-a", "custom-b"),
+        ("a/b", "x~0y"),
+        ("https://example.com/roles", "~1"),
+        ("/", "~"),
         ("ключ", "鍵"),
         ("a\"quote", "b\\slash"),
         ("😀", "a b"),
